@@ -126,7 +126,19 @@ class Model:
         return sorted(seen)
 
     def recs(self, oid):
-        return [r for t in self.txns for r in t.recs if r.oid == oid]
+        """Records of oid, oldest first.  If one transaction wrote the oid
+        more than once (two undos in one transaction), only its last record
+        counts for oid-keyed queries; the iterator still shows all."""
+        out = []
+        for t in self.txns:
+            mine = [r for r in t.recs if r.oid == oid]
+            if mine:
+                out.append(mine[-1])
+        return out
+
+    def has_duplicates(self, txn):
+        oids = [r.oid for r in txn.recs]
+        return len(oids) != len(set(oids))
 
     def cur(self, oid):
         rs = self.recs(oid)
@@ -223,6 +235,7 @@ class Model:
                      description=t.desc)
             d.update(t.ext)
             d['_n'] = len(t.recs)
+            d['_dup'] = self.has_duplicates(t)
             out.append(d)
         return out
 
